@@ -260,8 +260,8 @@ rule('f64number-agree', '*', '*', ['post', 'assert', 'precond', 'decreases', 'in
 # superscript exponents: the ten superscript digits, the maximal run, the digits handed to the conversion (C13: 2¹⁰ = 2^10)
 for c in '⁰¹²³⁴⁵⁶⁷⁸⁹':
     rule(T, 'next', "Some('%s')" % c, ['post', 'assert'], ['C13', 'C03'])
-rule(T, 'superscript_digit_to_digit', '*', ['post', 'assert'], ['C13'])
-rule(T, 'deserialize_superscript_number', '*', ['post', 'invariant', 'assert'], ['C13'])
+rule(T, 'superscript_digit_to_digit', '*', ['post', 'assert'], ['C13', 'C03', 'C04'])      # C03: a character that is no superscript digit must not lex as one
+rule(T, 'deserialize_superscript_number', '*', ['post', 'invariant', 'assert'], ['C13', 'C03', 'C04'])
 
 # size / cost clauses of the parser methods: the parsed tree has fewer than 2 * tokens nodes, cost(tree) = nodes (C02)
 rule(P, '*', '*', ['cost'], ['C02'])
